@@ -204,7 +204,9 @@ pub fn parse_csr(der: &[u8]) -> Result<CsrInfo, String> {
 	if info.len() >= 4 && info[3].tag == 0xa0 {
 		for attr in children(info[3].body)? {
 			let ap = children(attr.body)?;
-			if ap.len() == 2 && ap[0].tag == 0x06 && oid_to_string(ap[0].body) == "1.2.840.113549.1.9.14"
+			if ap.len() == 2
+				&& ap[0].tag == 0x06
+				&& oid_to_string(ap[0].body) == "1.2.840.113549.1.9.14"
 			{
 				// extensionRequest: SET { SEQUENCE OF Extension }
 				for set_item in children(ap[1].body)? {
